@@ -35,7 +35,7 @@ RULE = ('A case is a batch of 2-4 graph-lab hypernym digraphs on 2-7 synsets (DA
 ASSUMPTIONS = [
     'hypernym edges stay inside one information-content class (n, v, a+s, r): cross-class edges '
     'are outside the documented use of wn.ic',
-    'written forms and tokens are lower-case ASCII, so the default normalizer is the identity and '
+    'written forms and tokens are lower-case ASCII (letters, digits, punctuation), so the default normalizer is the identity and '
     'a token is "found" iff it equals a stored form; unknown tokens stay unknown after '
     'normalization; the empty token is not generated',
     'distributed weight = count / number of distinct synsets of the word (docs formula)',
@@ -50,9 +50,11 @@ _IC_POS = ('n', 'v', 'a', 'r')
 _MAX_PER_KIND = 3
 _MAX_DISCS = 18
 
-LEMMAS = ['ab', 'cd', 'ef', 'gh', 'ab cd', 'ef gh ij', 'kl']
+# written forms need not contain letters (WordNet has '24/7', '9/11', '1000'): the statement
+# only lets *unknown* words be ignored
+LEMMAS = ['ab', 'cd', 'ef', 'gh', 'ab cd', 'ef gh ij', 'kl', '24/7', '1000', '9-11 x', '&']
 OTHER_FORMS = ['abs', 'cds', 'efs', 'ab cds']
-UNKNOWN = ['zzz', 'qq rr', 'unknown9', 'abx']
+UNKNOWN = ['zzz', 'qq rr', 'unknown9', 'abx', '25/8', '...', '7']
 
 
 def _close(a, b):
